@@ -630,8 +630,8 @@ func c05(r *core.Run) {
 							isInterval := hasPathSuffix(".End")(dp) && hasPathSuffix(".Start")(dp) && dp.HasExt("time.Time).Sub")
 							if isInterval {
 								eff := &core.Effect{Instr: x}
-								u1 := p.FindUnguarded(fn, []*core.Effect{eff}, extBool(p, "time.Time).Before", false, hasPathSuffix(".End"), hasPathSuffix(".Start")), true)
-								u2 := p.FindUnguarded(fn, []*core.Effect{eff}, extBool(p, "time.Time).Equal", false, hasPathSuffix(".End"), hasPathSuffix(".Start")), true)
+								u1 := p.FindUnguarded(fn, []*core.Effect{eff}, timeGuard(p, hasPathSuffix(".End"), hasPathSuffix(".Start"), ">=", ">"), true)
+								u2 := p.FindUnguarded(fn, []*core.Effect{eff}, timeGuard(p, hasPathSuffix(".End"), hasPathSuffix(".Start"), "!=", ">", "<"), true)
 								if len(u1) == 0 && len(u2) == 0 {
 									ok, why = true, "exception (reviewed): divisor = End − Start in microseconds, reached only behind End > Start (Before=false, Equal=false); gauges span whole days"
 								}
